@@ -135,7 +135,7 @@ def gen_request(prj, rng, conn_size=4000, for_write=False, tag=None, want=None):
     if dtype.name == "DWORD" and tag.dims:
         nbools = 32 * tag.dims[0]
         r = rng.random()
-        if r < 0.15:
+        if r < 0.15 and not for_write:  # writing a BOOL array without an index is not a documented form
             return Req(text, tag, dtype, 0, 1, False, "boolarray", bit=0, avail=nbools, shape="boolarr")
         if for_write:
             if r < 0.6:
@@ -213,7 +213,7 @@ def gen_request(prj, rng, conn_size=4000, for_write=False, tag=None, want=None):
         explicit = True
         text += "{%d}" % count
         shape.append("{n}")
-    elif rng.random() < 0.05:
+    elif in_array and rng.random() < 0.1:
         explicit = True
         text += "{1}"
         shape.append("{1}")
